@@ -314,4 +314,48 @@ Proof.
   - intros H. split; intros x Hx Ht; specialize (H x Hx); congruence.
 Qed.
 
+(* ---- sensitivity: mean dimension from the generated composition of sobol, weight and mask (C09) ---- *)
+Section MeanDimension.
+Variable marg : Type.
+Variable t_sobol : tensor -> tensor -> marg -> R.
+Variable t_weight : nat -> tensor.
+Variable t_mask : tensor -> tensor -> tensor.
+Variable t_dim : tensor -> nat.
+Variable sub : list nat.                       (* the shape [2; ...; 2] of masks: subsets of variables *)
+Notation SS := (sumR sub).
+Notation ins al := (in_range sub al = true).
+Variable okm : tensor -> Prop.                 (* well-formed masks *)
+Variable comp : tensor -> marg -> list nat -> R.   (* variance components of t under the marginals *)
+Variable wsize : list nat -> R.                (* |alpha| *)
+Hypothesis H_sobol : forall t m g, ok t -> okm m ->
+  t_sobol t m g = SS (fun al => den m al * comp t g al) / SS (comp t g).
+Hypothesis H_weight : forall t, ok t -> okm (t_weight (t_dim t)) /\ forall al, ins al -> den (t_weight (t_dim t)) al = wsize al.
+Hypothesis H_mask : forall a b, okm a -> okm b -> okm (t_mask a b) /\ forall al, ins al -> den (t_mask a b) al = den a al * den b al.
+
+Notation g_md := (gen_anova_mean_dimension_N tensor marg t_sobol t_weight t_dim).
+Notation g_mdm := (gen_anova_mean_dimension_M tensor marg t_sobol t_weight t_mask t_dim).
+
+(* mean dimension = sum_alpha |alpha| D_alpha / sum_alpha D_alpha *)
+Theorem gen_mean_dimension_spec t g : ok t ->
+  g_md t g = SS (fun al => wsize al * comp t g al) / SS (comp t g).
+Proof.
+  intros Ht. unfold gen_anova_mean_dimension_N. destruct (H_weight t Ht) as [Hw Ew].
+  rewrite (H_sobol t _ g Ht Hw). f_equal. apply sumR_ext_in. intros al Hal. rewrite Ew by exact Hal. reflexivity.
+Qed.
+
+(* restricted to a mask: sum |alpha| m_alpha D_alpha / sum m_alpha D_alpha *)
+Theorem gen_mean_dimension_masked_spec t m g : ok t -> okm m ->
+  SS (comp t g) <> 0 -> SS (fun al => den m al * comp t g al) <> 0 ->
+  g_mdm t m g = SS (fun al => wsize al * (den m al * comp t g al)) / SS (fun al => den m al * comp t g al).
+Proof.
+  intros Ht Hm H0 H1. unfold gen_anova_mean_dimension_M. destruct (H_weight t Ht) as [Hw Ew].
+  destruct (H_mask _ m Hw Hm) as [Hwm Ewm].
+  rewrite (H_sobol t _ g Ht Hwm), (H_sobol t m g Ht Hm).
+  replace (SS (fun al => den (t_mask (t_weight (t_dim t)) m) al * comp t g al))
+    with (SS (fun al => wsize al * (den m al * comp t g al))).
+  2:{ apply sumR_ext_in. intros al Hal. rewrite Ewm, Ew by exact Hal. ring. }
+  field. split; assumption.
+Qed.
+End MeanDimension.
+
 End GenP.
